@@ -82,6 +82,13 @@ impl AddressBook {
         Builder::new()
     }
 
+    /// Verification hook (only compiled with `--cfg p2panda_p2panda_verif`).
+    #[cfg(p2panda_p2panda_verif)]
+    #[doc(hidden)]
+    pub fn verif_from_actor(actor_ref: ActorRef<ToAddressBookActor>) -> Self {
+        Self::new(Some(actor_ref))
+    }
+
     /// Returns information about a node.
     ///
     /// Returns `None` if no information was found for this node.
